@@ -352,6 +352,55 @@ fn record(rep: &mut Report, base: &str, desc: &str, devclass: &str, sec_tag: &st
     }
 }
 
+/// "Trace column counts equal the LAYOUT's": the counts `StarkProof::verify` hands to validation come from
+/// `get_num_columns_first/second(public_input)`; for the six static layouts they must be the layout's constants
+/// whatever the public input carries (in particular a `dynamic_params` block declaring other counts).
+#[cfg(feature = "full")]
+fn layout_column_sources(ctx: &Ctx, rep: &mut Report) {
+    use crate::refm::stonefile;
+    use swiftness_air::layout::GenericLayoutTrait;
+    let corpus = stonefile::corpus(ctx);
+    let dynp = corpus.iter().find(|p| p.loaded.meta.layout == "dynamic").and_then(|p| p.loaded.proof.public_input.dynamic_params.clone());
+    for layout in stonefile::LAYOUTS.iter().filter(|l| **l != "dynamic") {
+        let (c1, c2, _) = match stonefile::layout_consts(layout) {
+            Some(x) => x,
+            None => continue,
+        };
+        let pf = match corpus.iter().find(|p| p.loaded.meta.layout == *layout) {
+            Some(p) => p,
+            None => continue,
+        };
+        let base = serde_json::to_value(&pf.loaded.proof.public_input).unwrap();
+        let mut variants: Vec<(String, Value)> = vec![("as shipped".into(), base.clone())];
+        if let Some(d) = &dynp {
+            let mut dv = serde_json::to_value(d).unwrap();
+            let mut v = base.clone();
+            v["dynamic_params"] = dv.clone();
+            variants.push(("with the dynamic proof's parameter block".into(), v));
+            dv["num_columns_first"] = json!(c1 + 1);
+            dv["num_columns_second"] = json!(c2 + 2);
+            let mut v = base.clone();
+            v["dynamic_params"] = dv;
+            variants.push(("with a parameter block declaring other column counts".into(), v));
+        }
+        for (tag, v) in variants {
+            let pi: swiftness_air::public_memory::PublicInput = match serde_json::from_value(v) {
+                Ok(p) => p,
+                Err(_) => continue,
+            };
+            let got = crate::with_layout!(*layout, L, (L::get_num_columns_first(&pi), L::get_num_columns_second(&pi)));
+            let ok = got == (Some(c1 as usize), Some(c2 as usize));
+            rep.eval(if ok { "layout-columns:constants" } else { "layout-columns:FOLLOW-THE-PROOF" });
+            rep.nontrivial_case(&format!("layoutcols|{}|{}", layout, tag));
+            if !ok {
+                rep.violation(&format!("validate-accepts:trace column counts taken from the proof:{}", layout),
+                    &format!("layout {} ({}): the column counts handed to validation are {:?}, the layout has ({}, {})", layout, tag, got, c1, c2),
+                    json!({"kind": "layoutcols", "layout": layout}));
+            }
+        }
+    }
+}
+
 pub fn bases(ctx: &Ctx) -> Vec<Base> {
     #[allow(unused_mut)]
     let mut b = synthetic_bases(ctx.quick());
@@ -371,6 +420,8 @@ pub fn run(ctx: &Ctx) -> Report {
          security level; distinct by (base, deviation(s), security)",
     );
     rep.trust("serde_json round trip of StarkConfig (checked: every base re-typed from JSON validates)");
+    #[cfg(feature = "full")]
+    layout_column_sources(ctx, &mut rep);
     let bs = bases(ctx);
     let thorough = !ctx.quick();
     let parts: Vec<Report> = bs
@@ -438,6 +489,12 @@ pub fn run(ctx: &Ctx) -> Report {
 }
 
 pub fn replay(_ctx: &Ctx, case: &Value) -> super::ReplayResult {
+    #[cfg(feature = "full")]
+    if case["kind"] == "layoutcols" {
+        let mut rep = Report::new("C11", "exploration", "");
+        layout_column_sources(_ctx, &mut rep);
+        return Ok((!rep.violations.is_empty(), format!("{:?}", rep.violations.keys().collect::<Vec<_>>())));
+    }
     let cfg = case.get("cfg").ok_or("cfg")?;
     let sec = Felt::from_hex(case["security"].as_str().ok_or("security")?).map_err(|e| e.to_string())?;
     let cols = (case["cols"][0].as_u64().ok_or("cols")?, case["cols"][1].as_u64().ok_or("cols")?);
